@@ -726,7 +726,7 @@ def pattern_addi32_2(context, tree, c0):
     "reg",
     "SHLI32(reg, CONSTI32)",
     size=1,
-    condition=lambda t: t.children[1].value < 16,
+    condition=lambda t: 0 <= t.children[1].value < 16,
 )
 def pattern_shli32_1_(context, tree, c0):
     d = context.new_reg(RiscvRegister)
